@@ -61,3 +61,36 @@ pub const FAMILY_C02: Family = Family {
     known,
     describe,
 };
+
+// ---------------------------------------------------------------------------------
+// C07: the VM-level gas batches plus a checker-level one (total gas of a two-pass check)
+
+fn plan_c07(prop: &str, tier: &str) -> Vec<BatchPlan> {
+    let mut p = crate::vmprops::plan(prop, tier);
+    p.extend(crate::props::plan(prop, tier));
+    p
+}
+
+fn run_case_c07(prop: &str, batch: &str, run_seed: u64) -> CaseOut {
+    if batch == "c07-checker" {
+        crate::props::run_case(prop, batch, run_seed)
+    } else {
+        crate::vmprops::run_case(prop, batch, run_seed)
+    }
+}
+
+fn describe_c07(prop: &str) -> PropText {
+    let mut t = crate::vmprops::describe(prop);
+    t.rule.push_str("; ");
+    t.rule.push_str(&crate::props::describe(prop).rule);
+    t
+}
+
+pub const FAMILY_C07: Family = Family {
+    plan: plan_c07,
+    run_case: run_case_c07,
+    replay,
+    shrink,
+    known,
+    describe: describe_c07,
+};
